@@ -293,7 +293,7 @@ func correctableFacts() {
 	s := p.findFunc("correctable.go", "Correctable.set")
 	sc := missing("set's watcher comparison not found")
 	if s != nil {
-		ifs := p.ifsWithBodyMentioning(s, "= nil")
+		ifs := p.ifsWithBodyMentioning(s, "] = nil")
 		if len(ifs) == 1 {
 			sc = p.expr(ifs[0].Cond)
 		}
